@@ -351,6 +351,14 @@ class IntroVisitor(ast.NodeVisitor):
             self.inters.append(fi_or_p)
         # str is the underlying type of a DDSPath
         if fi_or_p is not None and isinstance(fi_or_p, str):
+            if fi_or_p not in self._gctx.resolved_references:
+                # Neither committed in the store nor kept by a call that comes before this one.
+                raise DDSException(
+                    f"The path {fi_or_p} is loaded before it is produced: it is kept later in the "
+                    f"same evaluation. Suggestion: call the function that keeps {fi_or_p} before "
+                    f"loading it. Call stack: {self._call_stack}",
+                    DDSErrorCode.STORE_PATH_NOT_FOUND,
+                )
             self.load_paths.append(fi_or_p)
         self.generic_visit(node)
 
@@ -706,9 +714,13 @@ class InspectFunction(object):
 
         def fetch(dep: DDSPath) -> PyHash:
             key = gctx.resolved_references.get(dep)
-            assert (
-                key is not None
-            ), f"Missing dep {dep} for {fun_path}: {call_stack} {gctx.resolved_references}"
+            if key is None:
+                raise DDSException(
+                    f"Function {fun_path} loads the path {dep} before it is produced: {dep} is kept "
+                    f"later in the same evaluation. Suggestion: call the function that keeps {dep} "
+                    f"before loading it. Call stack: {call_stack}",
+                    DDSErrorCode.STORE_PATH_NOT_FOUND,
+                )
             return key
 
         indirect_deps_sigs = dict([(dep, fetch(dep)) for dep in indirect_dep])
@@ -928,6 +940,8 @@ class InspectFunction(object):
             )
             inner_intro = _introspect(called_fun, arg_ctx, gctx, new_call_stack)
             inner_intro = inner_intro._replace(store_path=store_path)
+            # Register the path as a potential link to dependencies (loads later in this evaluation)
+            gctx.resolved_references[store_path] = inner_intro.fun_return_sig
             return inner_intro
 
         # Normal function call.
